@@ -140,9 +140,9 @@ fn c01c03_register_guards() {
 #[kani::proof]
 fn c01c08_bds30_range_bearing() {
     let n: u8 = kani::any(); kani::assume(n < 128);
-    match B30__range(n).unwrap() { None => assert!(n == 0), Some(x) => { assert!(n != 0 && x.is_finite() && x >= 0. && x <= 12.65); } }
+    match B30__range(n as _).unwrap() { None => assert!(n == 0), Some(x) => { assert!(n != 0 && x.is_finite() && x >= 0. && x <= 12.65); } }
     let m: u16 = kani::any(); kani::assume(m < 64);
-    match B30__bearing(m).unwrap() { None => assert!(m == 0), Some(x) => { assert!(x == 6 * (m - 1) + 3 && x < 380); } }
+    match B30__bearing(m as _).unwrap() { None => assert!(m == 0), Some(x) => { assert!(x == 6 * (m - 1) + 3 && x < 380); } }
 }
 /// BDS 2,1: total for every payload and every verdict of the pattern matcher (including the
 /// empty string left when all characters are spaces)
